@@ -44,6 +44,7 @@ type c16sAlloc struct {
 	unheld  int                      // releases of an address that was not allocated at the time
 	allocs  int
 	lastRec *c16sAllocRec
+	cancelOnRelease context.CancelFunc // armed by a terminate call: its context is cancelled when the next release starts
 }
 
 func (a *c16sAlloc) alloc(free *[]net.IP) (*c16sAllocRec, error) {
@@ -62,6 +63,11 @@ func (a *c16sAlloc) alloc(free *[]net.IP) (*c16sAllocRec, error) {
 }
 
 func (a *c16sAlloc) release(free *[]net.IP, ip net.IP) error {
+	if a.cancelOnRelease != nil {
+		// the caller's deadline runs out while its release request is in flight
+		a.cancelOnRelease()
+		a.cancelOnRelease = nil
+	}
 	a.s.Pause()
 	a.s.Logf("release %v", ip)
 	r := a.cur[ip.String()]
@@ -160,6 +166,7 @@ func c16GenSubscriber(r *sim.Rand, tier string, cs *sim.Case) {
 	cs.Knobs["v6"] = int64(r.N(2))
 	cs.Knobs["idle_s"] = int64(sim.Pick(r, 60, 120))
 	cs.Knobs["pool"] = int64(r.Range(2, 4))
+	cs.Knobs["deadline"] = int64(r.Weighted(3, 1)) // 1: the context of TerminateSession calls is cancelled while the first address release is in flight
 	paths := []string{"terminate", "disconnect", "idle", "session-timeout"}
 	pick := func() string { return paths[r.Weighted(5, 4, 3, 2)] }
 	type plan struct {
@@ -333,8 +340,23 @@ func c16RunSubscriber(c *sim.Ctx) {
 	call := func(x *c16sSess, path string, reason subscriber.TerminateReason, sel int64) {
 		switch path {
 		case "terminate":
-			err := m.TerminateSession(bg, x.id, reason)
+			ctx, cancel := bg, context.CancelFunc(func() {})
+			if cs.Knob("deadline", 0) == 1 {
+				ctx, cancel = context.WithCancel(bg)
+				al.cancelOnRelease = cancel
+			}
+			err := m.TerminateSession(ctx, x.id, reason)
+			al.cancelOnRelease = nil
+			cancel()
 			c.S.Logf("terminate s%d reason=%s err=%v", x.idx, reason, err != nil)
+			if err != nil && ctx.Err() != nil {
+				// the caller gave up; the operator (or the next cleanup pass) asks again
+				c.S.Fault("caller.deadline-during-release")
+				err = m.TerminateSession(bg, x.id, reason)
+				c.S.Logf("terminate s%d again err=%v", x.idx, err != nil)
+			} else if ctx.Err() != nil {
+				c.S.Probe("caller_deadline_during_release_ignored")
+			}
 		case "disconnect":
 			req := &bngradius.DisconnectRequest{Username: "u"}
 			switch {
